@@ -502,7 +502,7 @@ class Program:
         pending = []
         for m in self.all_modules(True):
             for ci in m.classes.values():
-                if ci.is_subclass_of_ext("enum.Enum") or ci.is_subclass_of_ext("enum.IntEnum"):
+                if any(ci.is_subclass_of_ext(b_) for b_ in ("enum.Enum", "enum.IntEnum", "enum.StrEnum", "enum.Flag", "enum.IntFlag")):
                     pending.append(ci)
         for _ in range(3):
             for ci in pending:
